@@ -203,14 +203,16 @@ structure Agg where
 
 def groupKey (ks : List VExpr) (ρ : Env) : List PV := ks.map fun k => k ρ
 
-/-- Groups in first-appearance order. -/
+/-- Add a row (that comes BEFORE the rows grouped so far) to its group. -/
 def groupInsert (ks : List VExpr) (ρ : Env) : List (List PV × List Env) → List (List PV × List Env)
   | [] => [(groupKey ks ρ, [ρ])]
-  | (k, ms) :: gs => if k = groupKey ks ρ then (k, ms ++ [ρ]) :: gs else (k, ms) :: groupInsert ks ρ gs
+  | (k, ms) :: gs => if k = groupKey ks ρ then (k, ρ :: ms) :: gs else (k, ms) :: groupInsert ks ρ gs
 
+/-- Groups with their member rows in input order (the order of the groups themselves is not
+observable: results are compared as bags). -/
 def groups (ks : List VExpr) : List Env → List (List PV × List Env)
   | [] => []
-  | ρ :: rest => groupInsert ks ρ (groups ks rest)   -- order of groups is not observable (bag)
+  | ρ :: rest => groupInsert ks ρ (groups ks rest)
 
 def aggRow (aggs : List Agg) (ms : List Env) : Env := fun x =>
   match aggs.find? (fun a => a.col == x) with
